@@ -7,6 +7,7 @@ import (
 	"io"
 	"net"
 	"os"
+	"path/filepath"
 	"strings"
 	"sync"
 	"time"
@@ -160,6 +161,26 @@ func c16Stream(o *out, r *rng, thorough bool) {
 			o.emit(fmt.Sprintf("c16 %d %d %s %s", T, T/2, sc.name, encodeChunks(sc.chunks)), res[i], "", fmt.Sprintf("%d:%s", T, sc.name))
 		}
 	}
+	// the write side: a client that stops reading its response, and one that keeps draining a long one
+	big := filepath.Join(root, "big.bin")
+	if f, err := os.Create(big); err == nil {
+		f.Truncate(1 << 30)
+		f.Close()
+	}
+	for _, T := range Ts {
+		env, err := newTCPEnv(root, "", 0, time.Duration(T)*time.Millisecond)
+		if err != nil {
+			continue
+		}
+		// one after the other: the descriptor count of the first must not see the second's file
+		stalled := runStalledReader(env, big, T)
+		steady := runSteadyReader(env, T)
+		env.close()
+		o.count("write-side:stalled")
+		o.count("write-side:steady")
+		o.emit(fmt.Sprintf("c16w %d stalled", T), stalled, "", fmt.Sprintf("%d:stalled-reader", T))
+		o.emit(fmt.Sprintf("c16w %d steady", T), steady, "", fmt.Sprintf("%d:steady-reader", T))
+	}
 	// no timeout configured: an idle connection is never cut
 	env, err := newTCPEnv(root, "", 0, 0)
 	if err == nil {
@@ -181,4 +202,85 @@ func c16Stream(o *out, r *rng, thorough bool) {
 
 func init() {
 	streams["c16"] = c16Stream
+}
+
+// openCount: how many descriptors of this process refer to the file (the server runs in-process)
+func openCount(path string) int {
+	ents, err := os.ReadDir("/proc/self/fd")
+	if err != nil {
+		return -1
+	}
+	n := 0
+	for _, e := range ents {
+		if t, err := os.Readlink("/proc/self/fd/" + e.Name()); err == nil && t == path {
+			n++
+		}
+	}
+	return n
+}
+
+func openBigAndAsk(env *tcpEnv, length uint64) (net.Conn, bool) {
+	c, err := net.Dial("tcp4", env.addr)
+	if err != nil {
+		return nil, false
+	}
+	c.SetDeadline(time.Now().Add(60 * time.Second))
+	c.Write(creq{op: opOpenFile, path: "/big.bin"}.bytes())
+	if _, err := io.ReadFull(c, make([]byte, 16)); err != nil {
+		c.Close()
+		return nil, false
+	}
+	c.Write(creq{op: opReadFile, a: length, b: 0}.bytes())
+	return c, true
+}
+
+// runStalledReader: ask for 512 MiB, read nothing for 3T. By then the server must have given the
+// connection up and closed the file; what can still be read afterwards is only what sat in buffers.
+func runStalledReader(env *tcpEnv, big string, T int) string {
+	const length = 512 << 20
+	c, ok := openBigAndAsk(env, length)
+	if !ok {
+		return "dialerr"
+	}
+	defer c.Close()
+	time.Sleep(time.Duration(3*T) * time.Millisecond)
+	handles := "released"
+	if n := openCount(big); n != 0 {
+		handles = fmt.Sprintf("held(%d)", n)
+	}
+	got, _ := io.Copy(io.Discard, c)
+	cut := "yes"
+	if got >= length+4 {
+		cut = "no"
+	}
+	return fmt.Sprintf("cut=%s handles=%s", cut, handles)
+}
+
+// runSteadyReader: drain 256 MiB in 64 steps spread over about 3T: the response takes longer than T
+// but no single write waits anywhere near T, so it must arrive in full.
+func runSteadyReader(env *tcpEnv, T int) string {
+	const length = 256 << 20
+	c, ok := openBigAndAsk(env, length)
+	if !ok {
+		return "dialerr"
+	}
+	defer c.Close()
+	hdr := make([]byte, 4)
+	if _, err := io.ReadFull(c, hdr); err != nil {
+		return "served=short"
+	}
+	buf := make([]byte, 4<<20)
+	total := 0
+	for i := 0; i < 64; i++ {
+		n, err := io.ReadFull(c, buf)
+		total += n
+		if err != nil {
+			break
+		}
+		time.Sleep(time.Duration(3*T) * time.Millisecond / 64)
+	}
+	if total == length {
+		return "served=full"
+	}
+	return fmt.Sprintf("served=short(%d)", total)
 }
